@@ -291,10 +291,20 @@ def r3(prog, rep):
     init = mod.funcs.get("TokamakEquilibrium.__init__")
     if init is None:
         raise AnalysisError("TokamakEquilibrium.__init__ not found")
+    from ..model import inline_temporaries
     got = {}
+    want_attrs = ("psi_axis", "psi_bdry", "o_point", "x_point")
     for s in walk_own(init.node):
-        if isinstance(s, ast.Assign) and is_self_attr(s.targets[0]) and s.targets[0].attr in ("psi_axis", "psi_bdry", "o_point", "x_point"):
-            got[s.targets[0].attr] = " ".join(mod.text(s.value).split())
+        if not isinstance(s, ast.Assign):
+            continue
+        t0 = s.targets[0]
+        if is_self_attr(t0) and t0.attr in want_attrs:
+            got[t0.attr] = " ".join(mod.text(inline_temporaries(init.node, s.value)).split())
+        elif isinstance(t0, ast.Tuple) and not isinstance(s.value, (ast.Tuple, ast.Call)):
+            # `R, Z, self.psi_axis = opoints[0]`: the k-th target is element k of the value
+            for k, e in enumerate(t0.elts):
+                if is_self_attr(e) and e.attr in want_attrs:
+                    got[e.attr] = " ".join(mod.text(s.value).split()) + "[%d]" % k
     rep.ob("R3", "psi_axis is psi at the first (primary) O-point", got.get("psi_axis") == "opoints[0][2]", init.site(), str(got.get("psi_axis")), key="scalar/psi_axis")
     rep.ob("R3", "psi_bdry is psi at the first (primary) X-point", got.get("psi_bdry") == "xpoints[0][2]", init.site(), str(got.get("psi_bdry")), key="scalar/psi_bdry")
     rep.ob("R3", "o_point is the position of the same O-point", got.get("o_point") == "Point2D(opoints[0][0], opoints[0][1])", init.site(), str(got.get("o_point")), key="scalar/o_point")
